@@ -661,7 +661,9 @@ void* iwlist_shift(IWLIST *list, size_t *osize, iwrc *orc) {
   size_t index = list->start;
   ++list->start;
   --list->num;
-  *osize = list->array[index].size;
+  if (osize) {
+    *osize = list->array[index].size;
+  }
   void *rv = list->array[index].val;
   if (!(list->start & 0xff) && (list->start > list->num / 2)) {
     memmove(list->array, list->array + list->start, list->num * sizeof(list->array[0]));
@@ -720,7 +722,9 @@ void* iwlist_remove(IWLIST *list, size_t index, size_t *osize, iwrc *orc) {
   }
   index += list->start;
   void *rv = list->array[index].val;
-  *osize = list->array[index].size;
+  if (osize) {
+    *osize = list->array[index].size;
+  }
   --list->num;
   memmove(list->array + index, list->array + index + 1,
           sizeof(list->array[0]) * (list->start + list->num - index));
